@@ -1,9 +1,16 @@
 import KmipModel.Alloc
+import KmipProofs.DecodeCostBound
 /-
   C05 — Decode memory is proportional to bytes actually received, not declared lengths.
-  Partial by nature: the theorem is about the accounting model (KmipModel/Alloc.lean); that the model's charges bound the
-  real allocations is measured by kvrun C05 (runtime.MemStats.TotalAlloc per Decode call, hostile declared lengths at every
-  string / bytes / structure / skip position), not proved.
+
+  Two layers.  (1) `C05_decode_cost_linear` and its corollaries (end of this file): on the cost semantics of the decoder model
+  (KmipModel/DecodeCost.lean: decode.go's recursion, every allocation charged where the Go code makes it), for EVERY schema
+  whose structures have at most 64 fields, every target type, every input and every end-of-stream condition, one Decode call
+  costs at most A · (bytes available) + B — no term for a declared length.  (2) The older accounting theorems over an
+  abstract list of operations (KmipModel/Alloc.lean), kept.
+  Partial by nature in one respect: that the model's charges bound the REAL allocations is measured by kvrun C05
+  (runtime.MemStats.TotalAlloc per Decode call against `decodeCost` of that very input, hostile declared lengths at every
+  string / bytes / structure / skip position, whole and fragmented delivery), not proved: the Go allocator is not modelled.
 -/
 namespace Kmip.Alloc
 
@@ -52,3 +59,51 @@ example : (Op.stringItem 4294967295 0).cost ≤ 1600 * 8 := by
   simpa [A, Op.consumed] using this
 
 end Kmip.Alloc
+
+/-! ### the bound on the decoder model itself -/
+namespace Kmip.Cost
+open Kmip
+
+/-- **C05 on the decoder model.**  One `Decode` call into a target of type `sd`, on ANY input `bs` (well-formed or not, declaring
+    whatever lengths it likes at whatever position) ending in any way: the allocation charged along decode.go's own recursion
+    is at most `A` bytes per byte of input available, plus the fixed `B`. -/
+theorem C05_decode_cost_linear (sd : SD) (hn : SD.narrow width sd = true) (bs : Bytes) (fin : Fin) :
+    decodeCost sd bs fin ≤ A * bs.length + B := by
+  unfold decodeCost
+  split
+  · have h := S_bound sd sd.tag { win := bs, fin := fin, last := 0 } hn
+    have hp : phi { win := bs, fin := fin, last := 0 } = bs.length := by simp [phi]
+    rw [hp] at h
+    omega
+  · omega
+
+/-- the same for a Decode call in the middle of a stream (a Decoder that has decoded messages before; a tag may be peeked):
+    charged to what that Decoder can still obtain -/
+theorem C05_decode_cost_linear_stream (sd : SD) (hn : SD.narrow width sd = true) (d : Dec) :
+    costStruct sd.tag sd d ≤ A * phi d := by
+  have h := S_bound sd sd.tag d hn
+  omega
+
+/-- what a successful Decode leaves behind has been paid for separately: cost ≤ A · (bytes it consumed) -/
+theorem C05_decode_cost_consumed (sd : SD) (hn : SD.narrow width sd = true) (d : Dec) (v : Val) (n : Nat) (d' : Dec)
+    (h : decStruct sd.tag sd d = .ok (v, n, d')) : costStruct sd.tag sd d + A * phi d' ≤ A * phi d := by
+  have hb := S_bound sd sd.tag d hn
+  rw [h] at hb
+  exact hb
+
+/-- "a message of a few bytes that claims to contain a multi-gigabyte string": whatever the 24 bytes say, at most
+    A · 24 + B = 103 936 bytes -/
+theorem C05_few_bytes (sd : SD) (hn : SD.narrow width sd = true) (bs : Bytes) (fin : Fin) (h : bs.length ≤ 24) :
+    decodeCost sd bs fin ≤ 103936 := by
+  have := C05_decode_cost_linear sd hn bs fin
+  have h2 : A * bs.length ≤ A * 24 := Nat.mul_le_mul_left _ h
+  unfold A B at *
+  omega
+
+/-- a string's charge does not depend on the length declared once that exceeds what a chunk holds: only on what was obtained -/
+theorem C05_string_declared_irrelevant (d1 d2 got : Nat) (h1 : chunk ≤ d1) (h2 : chunk ≤ d2) :
+    stringAlloc d1 got = stringAlloc d2 got := by
+  unfold stringAlloc
+  rw [Nat.min_eq_right h1, Nat.min_eq_right h2]
+
+end Kmip.Cost
